@@ -530,6 +530,18 @@ impl<'a> ExpandedSelection<'a> {
     }
 
     fn push_field(&mut self, field: ExpandedField<'a>) {
+        // The same fragment can be spread more than once into one struct (for instance on a union
+        // variant and again inside an inline fragment on that variant): it is the same data.
+        if field.flatten
+            && self.fields.iter().any(|other| {
+                other.flatten
+                    && other.struct_id == field.struct_id
+                    && other.field_type == field.field_type
+            })
+        {
+            return;
+        }
+
         self.fields.push(field);
     }
 
